@@ -723,6 +723,19 @@ class C17(ListBase):
                 items[0].text = "x"
             yield self.mk_items(items, gen.Spelling(), rng.random() < 0.7, "ast")
         yield from self.multi_inline(rng, quick(tier, 500, 20000))
+        # outside the property's space (tags on the wrapper lines of unwrap-blocks): implementation against model only
+        for i in range(quick(tier, 1500, 40000)):
+            g = gen.DocGen(rng, depth=rng.choice([2, 3]), p_unwrap=0.6, p_ready=0.55, p_skip=0.05, p_wrapper_tags=0.6, p_inline=0.2,
+                           max_items=3, kinds=("tl", "rm", "rm", "tl", "zz"))
+            items = g.doc()
+            # an unwrap-block directly inside an unwrap-block: the inner tag line is the outer wrapper line
+            for e in gen.all_elements(items):
+                if e.unwrap and rng.random() < 0.3:
+                    e.wrap_open = None
+                    e.wrap_close = None
+            c = self.mk(gen.render(items, final_nl=rng.random() < 0.8), "<", ">", Cfg(), "wrapper-tags")
+            c.meta["corr_only"] = True
+            yield c
 
     def expected(self, extents):
         ready, pend = [], []
